@@ -245,6 +245,12 @@ where
         add("relabel-down", mk(vec![PolySpec::new(2).bound(d2)], Some(vec![d1, d2])), Box::new(move |c| c04::verifier_side::<S>(c, Attack::Relabel(d1), false)), false);
         add("relabel-up-hiding", mk(vec![PolySpec::new(2).bound(d1).hide(1)], Some(vec![d1, d2])), Box::new(move |c| c04::verifier_side::<S>(c, Attack::Relabel(d2), false)), false);
         add("label-drop", mk(vec![PolySpec::new(2).bound(d1)], Some(vec![d1, d2])), Box::new(move |c| c04::verifier_side::<S>(c, Attack::LabelDrop, false)), false);
+        // a label the keys were not trimmed for, lying in a gap of the enforced set; and a mislabelled commitment
+        // listed after one that genuinely carries the bound both were made under
+        add("relabel-gap", mk(vec![PolySpec::new(sup + 1).bound(sup)], Some(vec![1, sup])), Box::new(move |c| c04::verifier_side::<S>(c, Attack::Relabel(sup - 1), false)), false);
+        add("relabel-gap-below", mk(vec![PolySpec::new(2).bound(sup)], Some(vec![sup - 1, sup])), Box::new(move |c| c04::verifier_side::<S>(c, Attack::Relabel(1), false)), false);
+        add("relabel-second-of-two", mk(vec![PolySpec::new(2).conc().bound(sup), PolySpec::new(sup + 1).bound(sup)], Some(vec![1, sup])), Box::new(move |c| c04::verifier_side::<S>(c, Attack::RelabelAt(1, 1), false)), false);
+        add("relabel-second-of-two-hiding", mk(vec![PolySpec::new(2).conc().bound(sup).hide(1), PolySpec::new(3).bound(sup).hide(1)], Some(vec![1, sup])), Box::new(move |c| c04::verifier_side::<S>(c, Attack::RelabelAt(1, 1), false)), false);
         add("twin-relabel", mk(vec![PolySpec::new(2).bound(d1)], Some(vec![d1, d2])), Box::new(move |c| c04::verifier_side::<S>(c, Attack::Relabel(d2), true)), true);
         if name == "marlin" {
             add("shift-identity", mk(vec![PolySpec::new(sup + 1)], Some(vec![d1, d2])), Box::new(move |c| c04::verifier_side::<S>(c, Attack::ShiftIdentity(d1), false)), false);
@@ -691,6 +697,10 @@ fn catalogue_inner(prop: &str, t: Tier, seed: u64, out: &mut Vec<Entry>) {
             uni!(Ipa);
             {
                 let c = mk(Size::mv(2, 2, 0), vec![PolySpec::new(3)]);
+                let c3 = c.clone();
+                let mut en = e("pst13/msm-noncanonical-terms".into(), t, "coefficients of all 6 monomials of degree <= 2 in 2 variables, split coefficient", format!("{:?}; term lists reversed / rotated / one monomial in two entries", c.sz), move || c08::pst13_noncanonical(&c3));
+                en.funcs = f.clone();
+                out.push(en);
                 let c2 = c.clone();
                 let mut en = e("pst13/msm".into(), t, "coefficients of all 6 monomials of degree <= 2 in 2 variables", format!("{:?}", c.sz), move || c08::pst13_msm(&c2));
                 en.funcs = f.clone();
@@ -747,7 +757,7 @@ fn catalogue_inner(prop: &str, t: Tier, seed: u64, out: &mut Vec<Entry>) {
             for sup in [1, 2, maxd - 1, maxd, maxd + 1] {
                 for hid in [0usize, 1, maxd, maxd + 1] {
                     if hid > 1 && sup != maxd { continue; }
-                    let blists: Vec<Option<Vec<usize>>> = vec![None, Some(vec![]), Some(vec![1]), Some(vec![sup.min(maxd)]), Some(vec![sup.min(maxd), 1, 1, 2.min(sup)]), Some(vec![maxd + 1]), Some(vec![maxd])];
+                    let blists: Vec<Option<Vec<usize>>> = vec![None, Some(vec![]), Some(vec![1]), Some(vec![sup.min(maxd)]), Some(vec![sup.min(maxd), 1, 1, 2.min(sup)]), Some(vec![maxd + 1]), Some(vec![maxd]), Some(vec![(sup + 1).min(maxd + 1), 1]), Some(vec![maxd + 1, 1]), Some(vec![1, maxd + 1, 1])];
                     for b in blists {
                         if (hid > 1 || sup > maxd) && b != None { continue; }
                         reqs.push(TrimReq { max_degree: maxd, supported: sup, hiding: hid, bounds: b });
